@@ -50,12 +50,54 @@ M = [
  ("C14-swap-counters", "C14", "src/resultset.rs",
   "            }) => writers::write_ok_packet(self.writer, rows, last_insert_id, status),",
   "            }) => if more_exists && rows > 0xffff { writers::write_ok_packet(self.writer, last_insert_id, rows, status) } else { writers::write_ok_packet(self.writer, rows, last_insert_id, status) },"),
- ("C16-types-shared", "C16", "src/params.rs",
-  "                self.bound_types.clear();\n                for i in 0..self.params as usize {",
-  "                if self.params != 3 { self.bound_types.clear(); }\n                for i in 0..self.params as usize {"),
+ ("C16-rebind-ignored", "C16", "src/params.rs",
+  "                *self.bound_types = types;",
+  "                if self.bound_types.is_empty() {\n                    *self.bound_types = types;\n                }"),
  ("C17-no-long-data-clear", "C17", "src/lib.rs",
   "                    state.long_data.clear();",
   "                    if stmt == 6 { state.long_data.clear(); }"),
+ ("C04-no-empty-trailer", "C04", "src/packet.rs",
+  "            self.last_full = len == U24_MAX;",
+  "            self.last_full = false;"),
+ ("C04-cut-one-byte-early", "C04", "src/packet.rs",
+  "        let left = min(buf.len(), U24_MAX + 4 - self.to_write.len());\n        self.to_write.extend(&buf[..left]);\n\n        if self.to_write.len() == U24_MAX + 4 {",
+  "        let left = min(buf.len(), U24_MAX + 3 - self.to_write.len());\n        self.to_write.extend(&buf[..left]);\n\n        if self.to_write.len() == U24_MAX + 3 {"),
+ ("C11-ssl-always-advertised", "C11", "src/lib.rs",
+  "        if tls_conf.is_some() {\n            capabilities[1] |= 0x08; // SSL support flag\n        }",
+  "        if tls_conf.is_some() || capabilities[1] == 0x42 {\n            capabilities[1] |= 0x08; // SSL support flag\n        }"),
+ ("C11-reject-wrong-code", "C11", "src/lib.rs",
+  "                    ErrorKind::ER_ACCESS_DENIED_ERROR,\n                    \"client authentication failed\".as_ref(),",
+  "                    ErrorKind::ER_DBACCESS_DENIED_ERROR,\n                    \"client authentication failed\".as_ref(),"),
+ ("C11-username-trimmed", "C11 C18", "src/commands.rs",
+  "            let (i, user) = nom::bytes::complete::take_until(&b\"\\0\"[..])(i)?;\n            let (i, _) = nom::bytes::complete::tag(b\"\\0\")(i)?;\n            (i, Some(user))",
+  "            let (i, user) = nom::bytes::complete::take_until(&b\"\\0\"[..])(i)?;\n            let (i, _) = nom::bytes::complete::tag(b\"\\0\")(i)?;\n            (i, Some(if user.len() > 255 { &user[..255] } else { user }))"),
+ ("C15-usize-cast-unchecked", "C15", "src/value/encode.rs",
+  "        match <$target>::try_from(*$self) {\n            Ok(v) => $w.$m::<LittleEndian>(v),\n            Err(_) => Err(bad($self, $c)),\n        }",
+  "        match <$target>::try_from(*$self) {\n            Ok(v) => $w.$m::<LittleEndian>(v),\n            Err(_) => $w.$m::<LittleEndian>(*$self as $target),\n        }"),
+ ("C15-i16-into-unsigned-int", "C15", "src/value/encode.rs",
+  "                    like_try_into!(self, _ => u32, w, write_u32, c)\n                }\n            }\n            ColumnType::MYSQL_TYPE_SHORT | ColumnType::MYSQL_TYPE_YEAR => {\n                assert!(signed);",
+  "                    w.write_u32::<LittleEndian>(*self as u32)\n                }\n            }\n            ColumnType::MYSQL_TYPE_SHORT | ColumnType::MYSQL_TYPE_YEAR => {\n                assert!(signed);"),
+ ("C18-keep-remaining", "C18", "src/packet.rs",
+  "        self.remaining = 0;\n        res",
+  "        res"),
+ ("C18-prepend-truncated", "C18", "src/tls.rs",
+  "            inner: Cursor::new(prepended.to_vec()).chain(rw),",
+  "            inner: Cursor::new(prepended[..prepended.len().min(200)].to_vec()).chain(rw),"),
+ ("C19-eof-in-header-ok", "C19", "src/packet.rs",
+  "                if self.bytes.is_empty() {\n                    return Ok(None);",
+  "                if self.bytes.len() < 4 {\n                    return Ok(None);"),
+ ("C19-deferred-error-dropped", "C19", "src/packet.rs",
+  "        if let Some(e) = self.deferred_err.take() {\n            return Err(e);\n        }",
+  "        self.deferred_err.take();"),
+ ("C19-flush-error-ignored-after-quit-like", "C19", "src/lib.rs",
+  "            self.rw.flush()?;\n        }\n        Ok(())",
+  "            if let Err(e) = self.rw.flush() {\n                if e.kind() != io::ErrorKind::TimedOut {\n                    return Err(e.into());\n                }\n            }\n        }\n        Ok(())"),
+ ("C20-short-command-unwrap", "C20", "src/lib.rs",
+  "            let cmd = commands::parse(&packet)\n                .map_err(|e| {",
+  "            if packet.len() == 2 {\n                commands::parse(&packet).unwrap();\n            }\n            let cmd = commands::parse(&packet)\n                .map_err(|e| {"),
+ ("C20-typemap-not-validated", "C20", "src/params.rs",
+  "                if rest.len() - 1 < 2 * self.params as usize {\n                    return Err(bad(\"parameter block is shorter than its type table\"));\n                }",
+  ""),
 ]
 
 def main():
